@@ -1,10 +1,15 @@
 """C16 - generation options run exactly the selected rail categories (Colang 1.0).
 
-Domain : v1 configuration with 2 input rails, 1-2 output rails (all of the block-or-rewrite shape, so every rail can
-         accept / reject / rewrite), 1 retrieval rail and dialog rails;  ALL 16 subsets of {input, dialog, retrieval,
+Domain : v1 configuration with 0-2 input rails, 0-2 output rails (all of the block-or-rewrite shape, so every rail can
+         accept / reject / rewrite), 0-1 retrieval rail and dialog rails;  ALL 16 subsets of {input, dialog, retrieval,
          output} x 2 spellings of the `rails` option (list of names / dict of booleans) x every effective verdict
-         vector over the selected rails - this table is enumerated completely (`enumerate_cases`); user / bot texts
-         and dialog routes vary over a pool in the table and are drawn by Hypothesis in the sampled part.
+         vector over the selected rails - this table is enumerated completely (`enumerate_cases`) for the main
+         configuration (2 input, 1-2 output, 1 retrieval rail) and, in one spelling, for the family SHAPES: every other
+         pair of rail counts (a selected category may have NO rail configured) and the configurations in which ONE rail
+         flow is listed in several places - in rails.input.flows and rails.output.flows, twice within one category,
+         or both (the loader accepts all of these; such a flow tells its direction from the documented context
+         variable $triggered_output_rail).  User / bot texts and dialog routes vary over a pool in the table and are
+         drawn by Hypothesis in the sampled part, which also draws rail counts and the flow shared by each slot.
          A bot message is supplied (last message, role assistant) whenever dialog is off and output is on.
 Oracle : reference table written from docs/user_guides/advanced/generation-options.md and the statement:
            * no rail action of an unselected category is ever invoked; selected input rails run in order on the text
@@ -14,7 +19,8 @@ Oracle : reference table written from docs/user_guides/advanced/generation-optio
            * dialog selected    -> the LLM is called (unless the input was blocked); the LLM text passes the output
              chain iff `output` is selected;
            * log.activated_rails lists, for the input/output categories, exactly the rails that ran, in order, with
-             `stop` on exactly the blocking rail; no other entry has `stop`.
+             `stop` on exactly the blocking rail; no other entry has `stop` (a flow that ran in two places is listed
+             once per place, under its category, each entry with its own `stop`).
 Not asserted (DESIGN 4/C16 S): retrieval rails running when `retrieval` is selected (they run inside bot-message
          generation, also for refusals) - only that they never run when it is not; per-rail name lists in the
          options (documented as unsupported) are not generated.
@@ -34,43 +40,169 @@ WALL = {"quick": 170, "thorough": 1500}
 CATS = ["input", "dialog", "retrieval", "output"]
 SUPPLIED_K = 9  # the supplied bot message carries the marker LM0C9Z so that output rails treat it as checked material
 RULE = (
-    "Colang 1.0 config: 2 input rails + 1 or 2 output rails (each can accept/reject/rewrite) + 1 retrieval rail + dialog rails. "
-    "Enumerated completely: all 16 subsets of {input,dialog,retrieval,output} x {list, dict} spelling of options.rails x "
-    "{1,2} output rails x every effective verdict vector of the selected categories (a rail after a rejecting one is not "
-    "varied; unselected categories get one vector containing a reject and a rewrite) = 768 rows; texts/routes cycle over a "
-    "pool. Sampled part: the same row space with Hypothesis-drawn hostile user texts, bot texts, routes, partial-dict spelling "
-    "and enable_rails_exceptions. Non-trivial = subset != all four and a reject or rewrite among the verdicts of a selected "
-    "category; distinct by the whole case."
+    "Colang 1.0 config: 0-2 input rails + 0-2 output rails (each can accept/reject/rewrite) + 0-1 retrieval rail + dialog rails; "
+    "a rail flow may be listed in several places (in rails.input.flows AND rails.output.flows, twice within one category, or both). "
+    "Enumerated completely: (a) main configuration 2 input + {1,2} output + 1 retrieval rail: all 16 subsets of "
+    "{input,dialog,retrieval,output} x {list, dict} spelling of options.rails x every effective verdict vector of the selected "
+    "categories (a rail after a rejecting one is not varied; unselected categories get one vector containing a reject and a "
+    "rewrite) = 768 rows; (b) family SHAPES = 8 further rail-count shapes (every (n_in, n_out) in {0,1,2}^2, with and without a "
+    "retrieval rail, so a selected category can have no rail at all) + 9 same-flow shapes (one flow in input and output, crossed "
+    "pairs, twice in input, twice in output, one flow in all four places), each x 16 subsets x every effective verdict vector, "
+    "spelling alternating = 1632 rows; texts/routes cycle over a pool; every 4th row is also judged after a call with all rails, "
+    "every 3rd eligible row with an empty supplied bot message. Sampled part: the same row space with Hypothesis-drawn rail "
+    "counts (0-2, 0-2, 0-1), per-slot flow sharing, hostile user texts, bot texts, routes, partial-dict spelling and "
+    "enable_rails_exceptions. Non-trivial = subset != all four and (a reject or rewrite among the verdicts of a selected "
+    "category, or a selected input/output category without any rail, or one flow that ran in two places); distinct by the whole case."
 )
 ASSUMPTIONS = [
     "the supplied bot message is passed as a last message with role `assistant` (the code path tests/test_generation_options.py uses; the docs say `bot`)",
     "rails option values are booleans / category names only (per-rail name lists are documented as unsupported)",
     "a bot message is supplied exactly when dialog is unselected and output is selected",
     "with dialog selected the reply text itself is asserted only through markers (which text reached the reply), not character by character",
+    "a flow listed in several places decides whether it checks $user_message or $bot_message by the documented context variable $triggered_output_rail (docs/user_guides/detailed_logging), as a user-written two-way rail would; the harness attributes its k-th run per direction and call to its k-th listed place in that category (routes with two LLM messages per call are not generated here)",
+    "listing one flow in several places is accepted by RailsConfig (probed: no validation error, every occurrence runs)",
 ]
 EXHAUSTIVE = True
 
 
 def budget(tier):
-    return 160 if tier == "quick" else 10000
+    return 240 if tier == "quick" else 10000
 
 
-def _cfg(n_out, exc=False):
-    return {"v": 1, "in": ["both", "both"], "out": ["both"] * n_out, "ret": 1, "dialog": True, "exc": exc}
+EXT = "c16-same-flow"  # vf.pipeline extension (registered below): rail slots that list one shared flow
 
 
-def _in_vectors(selected):
-    if not selected:
-        return [["reject", "rewrite"]]
-    return [["reject", "accept"]] + [[a, b] for a in ("accept", "rewrite") for b in ("accept", "rewrite", "reject")]
+def _cfg(n_out, exc=False, n_in=2, n_ret=1, flows=None):
+    """flows = {"in": [label | None, ...], "out": [...]}: slots with the same label list the SAME rail flow `vf shared <label>`
+    (None = the slot's own flow).  The key (and the pipeline extension) is present only if some slot has a label."""
+    cfg = {"v": 1, "in": ["both"] * n_in, "out": ["both"] * n_out, "ret": n_ret, "dialog": True, "exc": exc}
+    flows = {cat: (list((flows or {}).get(cat) or []) + [None] * n)[:n] for cat, n in (("in", n_in), ("out", n_out))}
+    if any(flows["in"]) or any(flows["out"]):
+        cfg["ext"] = EXT
+        cfg["flows"] = flows
+    return cfg
 
 
-def _out_vectors(selected, n):
+def _label(cfg, cat, i):
+    fl = (cfg.get("flows") or {}).get(cat) or []
+    return fl[i] if i < len(fl) else None
+
+
+def _shared_labels(cfg):
+    return sorted({lab for cat in ("in", "out") for lab in (cfg.get("flows") or {}).get(cat, []) if lab})
+
+
+def _places(cfg, label, cat):
+    """Slots of category `cat` that list the shared flow `label`, in configured order."""
+    return [i for i in range(len(cfg.get(cat, []))) if _label(cfg, cat, i) == label]
+
+
+def flow_name(cfg, cat, i):
+    """Name under which slot i of the category is listed in config.yml (and must appear in the log)."""
+    lab = _label(cfg, cat, i)
+    return f"vf shared {lab}" if lab else pipeline.rail_flow_name(cat, i, cfg[cat][i])
+
+
+def _refusal_slot(cfg, cat, i):
+    """A shared flow utters, per direction, the refusal of its first place in that category."""
+    lab = _label(cfg, cat, i)
+    return _places(cfg, lab, cat)[0] if lab else i
+
+
+def _shared_branch(cfg, lab, cat):
+    first = _places(cfg, lab, cat)[0]
+    kind = cfg[cat][first]
+    var = "$user_message" if cat == "in" else "$bot_message"
+    exc = "InputRailException" if cat == "in" else "OutputRailException"
+    res = "$allowed" if kind == "check" else "$vf_checked"
+    lines = [
+        f'{res} = execute vf_shared_{lab}(direction="{cat}", text={var})',
+        f"if not {res}",
+        "  if $config.enable_rails_exceptions",
+        f'    create event {exc}(message="{fakes.block_message(cat, first, kind)}")',
+        "  else",
+        f"    bot vf refuse {cat} r{first}",  # defined by the generated configuration for every slot
+        "  stop",
+    ]
+    if kind != "check":
+        lines.append(f"{var} = {res}")
+    return lines
+
+
+def _ext_build_config(cfg, colang, yaml_text):
+    import yaml
+
+    co = [colang]
+    for lab in _shared_labels(cfg):
+        dirs = [cat for cat in ("in", "out") if _places(cfg, lab, cat)]
+        body = [f"define subflow vf shared {lab}"]
+        if dirs == ["in", "out"]:
+            # the way a user-written two-way rail finds out what it is checking (see the detailed-logging guide)
+            body += ["  if $triggered_output_rail"] + ["    " + ln for ln in _shared_branch(cfg, lab, "out")]
+            body += ["  else"] + ["    " + ln for ln in _shared_branch(cfg, lab, "in")]
+        else:
+            body += ["  " + ln for ln in _shared_branch(cfg, lab, dirs[0])]
+        co.append("\n".join(body) + "\n")
+    y = yaml.safe_load(yaml_text)
+    for cat, word in (("in", "input"), ("out", "output")):
+        if cfg.get(cat):
+            y["rails"][word] = {"flows": [flow_name(cfg, cat, i) for i in range(len(cfg[cat]))]}
+    return "\n".join(co), yaml.safe_dump(y, sort_keys=False)
+
+
+def _make_shared_action(cfg, lab):
+    name = f"vf_shared_{lab}"
+
+    async def shared_action(direction=None, text=None, context=None):
+        session, turn = fakes.current()
+        cat = "out" if direction == "out" else "in"
+        places = _places(cfg, lab, cat)
+        # the k-th run of the flow in this direction during this call is its k-th listed place (chains run in order, once per text)
+        k = sum(1 for e in session.trace if e["turn"] == turn and e.get("flow") == lab and e["cat"] == cat)
+        idx = places[min(k, len(places) - 1)]
+        entry = {"rail": f"{cat}{idx}", "cat": cat, "idx": idx, "text": text, "via": "action", "flow": lab}
+        if context is not None:
+            entry["ctx"] = context.get("user_message" if cat == "in" else "bot_message")
+        fakes._enter(name, entry)
+        kind = session.rail_kind(cat, idx)
+        verdict = fakes.eff(kind, session.rail_verdict(cat, idx, turn, text))
+        entry["verdict"] = verdict
+        if kind == "check":
+            return verdict != "reject"
+        if verdict == "reject":
+            return False
+        if verdict == "rewrite":
+            return session.rewritten(cat, idx, turn, text)
+        return text
+
+    shared_action.__name__ = name
+    return fakes._system(shared_action, name)
+
+
+def _ext_actions(cfg):
+    return [_make_shared_action(cfg, lab) for lab in _shared_labels(cfg)]
+
+
+pipeline.register_extension(EXT, build_config=_ext_build_config, actions=_ext_actions)
+
+
+def _vectors(selected, n):
+    """Every effective verdict vector of a chain of n block-or-rewrite rails (a rail after a rejecting one is not varied)."""
     if not selected:
         return [["reject", "rewrite"][:n]]
+    if n == 0:
+        return [[]]
     if n == 1:
         return [["accept"], ["rewrite"], ["reject"]]
     return [["reject", "accept"]] + [[a, b] for a in ("accept", "rewrite") for b in ("accept", "rewrite", "reject")]
+
+
+def _in_vectors(selected, n=2):
+    return _vectors(selected, n)
+
+
+def _out_vectors(selected, n):
+    return _vectors(selected, n)
 
 
 def _spell(subset, spelling):
@@ -86,7 +218,7 @@ BOTS = ["all good", "it's {sunny} $today", "fine: yes", "ok"]
 D_ROUTES = ["llm", "predef", "next_llm", "pl", "act_llm", "next_predef"]
 
 
-def make_case(subset, spelling, n_out, vin, vout, user_noise, bot_noise, route, exc=False, warm=False, empty_bot=False):
+def make_case(subset, spelling, n_out, vin, vout, user_noise, bot_noise, route, exc=False, warm=False, empty_bot=False, n_in=2, n_ret=1, flows=None):
     subset = [c for c in CATS if c in subset]
     T = 1 if warm else 0
     turn = {
@@ -108,14 +240,50 @@ def make_case(subset, spelling, n_out, vin, vout, user_noise, bot_noise, route, 
     if warm:
         # a first call of the same conversation with ALL rails (no `rails` option): the judged call then resends its messages,
         # so whatever the instance remembers about that prefix (events cache) must not override the options of this call
-        turns = [{"user": f"hello there {fakes.mk_user(0)}", "route": "llm", "in": ["accept", "accept"], "out": ["accept"] * n_out, "body": "first words",
+        turns = [{"user": f"hello there {fakes.mk_user(0)}", "route": "llm", "in": ["accept"] * n_in, "out": ["accept"] * n_out, "body": "first words",
                   "options": {"log": {"activated_rails": True}}}, turn]
-    cfg = _cfg(n_out, exc)
+    cfg = _cfg(n_out, exc, n_in, n_ret, flows)
     if turn.get("bot") == "":
         # rails of kind "both" hand back the (possibly rewritten) text and refuse on a falsy result - the harness's own rail flows
         # could not tell an accepted empty message from a rejection; the empty-message cases use plain checking rails
         cfg["out"] = ["check"] * n_out
     return {"config": cfg, "turns": turns, "subset": subset, "spelling": spelling, "api": "sync"}
+
+
+# (n_in, n_out, n_ret, flows): the rail-count family (every pair of counts that the main table does not have, so that a
+# selected category can be empty) and the same-flow family (a, b = one rail flow listed in several places)
+SHAPES = [
+    (0, 0, 0, None),
+    (0, 0, 1, None),
+    (0, 1, 1, None),
+    (0, 2, 0, None),
+    (1, 0, 0, None),
+    (2, 0, 1, None),
+    (1, 1, 1, None),
+    (1, 2, 0, None),
+    (1, 1, 1, {"in": ["a"], "out": ["a"]}),
+    (1, 2, 0, {"in": ["a"], "out": [None, "a"]}),
+    (2, 1, 1, {"in": [None, "a"], "out": ["a"]}),
+    (2, 2, 1, {"in": ["a", "b"], "out": ["b", "a"]}),
+    (2, 0, 0, {"in": ["a", "a"]}),
+    (2, 1, 0, {"in": ["a", "a"], "out": [None]}),
+    (0, 2, 1, {"out": ["a", "a"]}),
+    (1, 2, 1, {"in": [None], "out": ["a", "a"]}),
+    (2, 2, 0, {"in": ["a", "a"], "out": ["a", "a"]}),
+]
+
+
+def _rows(subset, spelling, n_in, n_out, n_ret, flows, n):
+    """The cases of one table row (n = running row number: picks texts/route and the extra variants)."""
+    kw = dict(n_in=n_in, n_ret=n_ret, flows=flows)
+    for vin in _in_vectors("input" in subset, n_in):
+        for vout in _out_vectors("output" in subset, n_out):
+            n += 1
+            yield make_case(subset, spelling, n_out, vin, vout, USERS[n % len(USERS)], BOTS[n % len(BOTS)], D_ROUTES[n % len(D_ROUTES)], **kw)
+            if n % 4 == 0:
+                yield make_case(subset, spelling, n_out, vin, vout, USERS[n % len(USERS)], BOTS[n % len(BOTS)], D_ROUTES[n % len(D_ROUTES)], warm=True, **kw)
+            if "dialog" not in subset and "output" in subset and "rewrite" not in vout and n % 3 == 0:
+                yield make_case(subset, spelling, n_out, vin, vout, USERS[n % len(USERS)], "", D_ROUTES[0], empty_bot=True, **kw)
 
 
 def enumerate_cases(tier):
@@ -124,26 +292,37 @@ def enumerate_cases(tier):
         for subset in itertools.combinations(CATS, r):
             for spelling in ("list", "dict"):
                 for n_out in (1, 2):
-                    for vin in _in_vectors("input" in subset):
-                        for vout in _out_vectors("output" in subset, n_out):
-                            n += 1
-                            yield make_case(subset, spelling, n_out, vin, vout, USERS[n % len(USERS)], BOTS[n % len(BOTS)], D_ROUTES[n % len(D_ROUTES)])
-                            if n % 4 == 0:
-                                yield make_case(subset, spelling, n_out, vin, vout, USERS[n % len(USERS)], BOTS[n % len(BOTS)], D_ROUTES[n % len(D_ROUTES)], warm=True)
-                            if "dialog" not in subset and "output" in subset and "rewrite" not in vout and n % 3 == 0:
-                                yield make_case(subset, spelling, n_out, vin, vout, USERS[n % len(USERS)], "", D_ROUTES[0], empty_bot=True)
+                    for case in _rows(subset, spelling, 2, n_out, 1, None, n):
+                        yield case
+                    n += len(_in_vectors("input" in subset, 2)) * len(_out_vectors("output" in subset, n_out))
+    # rail counts and same-flow configurations: grouped by configuration (instances are cached per worker)
+    for s, (n_in, n_out, n_ret, flows) in enumerate(SHAPES):
+        for r in range(5):
+            for subset in itertools.combinations(CATS, r):
+                for case in _rows(subset, ("list", "dict")[(n + s) % 2], n_in, n_out, n_ret, flows, n):
+                    yield case
+                n += len(_in_vectors("input" in subset, n_in)) * len(_out_vectors("output" in subset, n_out))
 
 
 @st.composite
 def _case(draw):
     subset = [c for c in CATS if draw(st.booleans())]
     spelling = draw(st.sampled_from(["list", "dict", "partial"]))
-    n_out = draw(st.integers(1, 2))
-    vin = [draw(pipeline.st_verdict("both")) for _ in range(2)]
+    # number of rails per category (0 = the category is configured empty) and, per slot, the flow it lists: its own
+    # or one of two shared flows - a label drawn for several slots puts ONE flow in several places
+    n_in = draw(st.sampled_from([0, 1, 2, 2]))
+    n_out = draw(st.sampled_from([0, 1, 1, 2, 2]))
+    n_ret = draw(st.sampled_from([0, 1, 1]))
+    flows = None
+    if draw(st.booleans()):
+        slot = st.sampled_from([None, None, "a", "a", "b"])
+        flows = {"in": [draw(slot) for _ in range(n_in)], "out": [draw(slot) for _ in range(n_out)]}
+    vin = [draw(pipeline.st_verdict("both")) for _ in range(n_in)]
     vout = [draw(pipeline.st_verdict("both")) for _ in range(n_out)]
     noise = st.one_of(st.text(pipeline.HOSTILE, min_size=1, max_size=14), st.sampled_from(pipeline.INTENT_EXAMPLES))
     bot = st.text(pipeline.TAME + "${}:\"", min_size=1, max_size=14)
-    return make_case(subset, spelling, n_out, vin, vout, draw(noise), draw(bot), draw(st.sampled_from(D_ROUTES)), exc=draw(st.sampled_from([False, False, False, True])), warm=draw(st.booleans()), empty_bot=draw(st.integers(0, 5)) == 0)
+    return make_case(subset, spelling, n_out, vin, vout, draw(noise), draw(bot), draw(st.sampled_from(D_ROUTES)), exc=draw(st.sampled_from([False, False, False, True])), warm=draw(st.booleans()), empty_bot=draw(st.integers(0, 5)) == 0,
+                     n_in=n_in, n_ret=n_ret, flows=flows)
 
 
 def strategy(tier):
@@ -170,7 +349,16 @@ def _check(case, obs):
             # rails-only checking: the statement fixes the reply completely, so "no reply" is a failure of the property
             raise Violation("generate-raised", f"{what}: generate raised {o['raised'][:200]} instead of returning the specified reply")
         raise RuntimeError(f"generate raised: {o['raised']} ({what})")
-    labels = ["subset=" + ("+".join(c[0] for c in case["subset"]) or "none"), "spelling=" + case["spelling"], f"out-rails={len(cfg['out'])}"]
+    labels = ["subset=" + ("+".join(c[0] for c in case["subset"]) or "none"), "spelling=" + case["spelling"], f"in-rails={len(cfg['in'])}", f"out-rails={len(cfg['out'])}", f"ret-rails={cfg['ret']}"]
+    for word, on, cat in (("input", I, "in"), ("output", O, "out")):
+        if on and not cfg[cat]:
+            labels.append(f"{word}-selected-but-no-{word}-rail-configured")
+    for lab in _shared_labels(cfg):
+        ni, no = len(_places(cfg, lab, "in")), len(_places(cfg, lab, "out"))
+        if ni and no:
+            labels.append("config:same-flow-in-input-and-output")
+        if ni > 1 or no > 1:
+            labels.append("config:same-flow-twice-in-" + ("input" if ni > 1 else "output"))
     if T:
         labels.append("after-a-call-with-all-rails")
     if cfg["exc"]:
@@ -197,11 +385,12 @@ def _check(case, obs):
         raise Violation("input-rail-chain", prob)
     last_rw = max([i for i, c in enumerate(mi["calls"]) if c["verdict"] == "rewrite"], default=None)
     user_now = spec["user"] if last_rw is None else fakes.rw_in_text(last_rw, T)
-    expected_log = [("input", pipeline.rail_flow_name("in", i, cfg["in"][i]), c["verdict"] == "reject") for i, c in enumerate(mi["calls"])]
+    expected_log = [("input", flow_name(cfg, "in", i), c["verdict"] == "reject") for i, c in enumerate(mi["calls"])]
     out_entries = [e for e in trace if e["cat"] == "out"]
     nt_event = I and any(c["verdict"] != "accept" for c in mi["calls"])
 
     def expect_refusal(cat, i, exact=True):
+        i = _refusal_slot(cfg, cat, i)
         if cfg["exc"]:
             want = fakes.block_message(cat, i, "both")
             typ = "InputRailException" if cat == "in" else "OutputRailException"
@@ -238,7 +427,7 @@ def _check(case, obs):
                 prob = pipeline.chain_problem(mo["calls"][: mo["need"]], out_entries, what)
             if prob:
                 raise Violation("output-rail-chain", prob)
-            expected_log += [("output", pipeline.rail_flow_name("out", i, cfg["out"][i]), c["verdict"] == "reject") for i, c in enumerate(mo["calls"][: mo["need"]])]
+            expected_log += [("output", flow_name(cfg, "out", i), c["verdict"] == "reject") for i, c in enumerate(mo["calls"][: mo["need"]])]
             nt_event = nt_event or any(c["verdict"] != "accept" for c in mo["calls"][: mo["need"]])
             if mo["blocked"] is not None:
                 labels.append("bot-message-blocked")
@@ -270,7 +459,7 @@ def _check(case, obs):
                 if prob:
                     raise Violation("output-rail-chain", prob)
             if entries:
-                expected_log += [("output", pipeline.rail_flow_name("out", i, cfg["out"][i]), c["verdict"] == "reject") for i, c in enumerate(mo["calls"][: len(entries)])]
+                expected_log += [("output", flow_name(cfg, "out", i), c["verdict"] == "reject") for i, c in enumerate(mo["calls"][: len(entries)])]
                 nt_event = nt_event or any(c["verdict"] != "accept" for c in mo["calls"][: len(entries)])
             if present:
                 if mo["blocked"] is not None:
@@ -280,7 +469,7 @@ def _check(case, obs):
             if O and mo["blocked"] is not None and len(entries) >= mo["need"]:
                 labels.append("llm-message-blocked")
                 expect_refusal("out", mo["blocked"], exact=False)  # a predefined message may precede it (route pl)
-        if R and not any(e["cat"] == "ret" for e in trace):
+        if R and cfg["ret"] and not any(e["cat"] == "ret" for e in trace):
             raise Violation("selected-category-skipped", f"{what}: dialog and retrieval are selected, a bot message was generated, but the retrieval rail never ran")
 
     # 3. the log
@@ -297,7 +486,14 @@ def _check(case, obs):
         ghosts = [(r["type"], r["name"]) for r in log if r["type"] in ("dialog", "generation")]
         if ghosts:
             raise Violation("activated-rails-log", f"{what}: dialog rails are not selected but the log lists {ghosts}")
-    nt = len(sel) < 4 and bool(nt_event)
+    names = [name for _, name, _ in expected_log]
+    twice = len(set(names)) < len(names)
+    if len({(t, n) for t, n, _ in expected_log}) < len(expected_log):
+        labels.append("same-flow-ran-twice-in-one-category")
+    if {n for t, n, _ in expected_log if t == "input"} & {n for t, n, _ in expected_log if t == "output"}:
+        labels.append("same-flow-ran-in-input-and-output")
+    empty_selected = (I and not cfg["in"]) or (O and not cfg["out"])
+    nt = len(sel) < 4 and bool(nt_event or twice or empty_selected)
     return ok(nt=nt, labels=sorted(set(labels)), view={"rails": spec["options"]["rails"], "in": spec["in"], "out": spec["out"], "user": spec["user"], "bot": spec.get("bot"), "reply": o["reply"], "rail_calls": [e["rail"] for e in trace], "llm_calls": len(o["llm"]), "log": [(r["type"], r["name"], r["stop"]) for r in log]})
 
 
